@@ -174,3 +174,28 @@ Example C04_tie_initialize_tableau_example :
   gen_initialize_tableau [[2;1];[-1;-3]]%Q [4;-6]%Q [[1;1]]%Q [-3]%Q (repeat (repeat (7#2)%Q 8) 4) [9;9;9]%Z
   = (([[2;1;1;0;1;0;0;4]; [1;3;0;-1;0;1;0;6]; [-1;-1;0;0;0;0;1;3]; [2;3;1;-1;0;0;0;13]]%Q, [4;5;6]%Z), true).
 Proof. vm_compute. reflexivity. Qed.
+
+(* solve_phase_1 as regenerated from the current source (Gen/Kernels3.v; it calls the regenerated solve_tableau and
+   _pivoting) = C04/Model.v (proof in C04/TieGen3.v): Phase-1 solve, feasibility test, clean-up pivots that drive the
+   artificial variables out of the basis *)
+From QE Require Import Gen.Kernels3 C04.TieGen3.
+Theorem C04_tie_solve_phase_1 :
+  forall (T : Type) (NT : Num T) (inf_ fea tolp tolr : T) (nr nc : nat), (2 <= nr <= nc)%nat ->
+  forall (M : list (list T)) (basis : list nat) (max_iter : nat),
+  rect nr nc M -> length basis = (nr - 1)%nat -> traj_ok inf_ fea tolp tolr false nr nc max_iter M ->
+  @gen_solve_phase_1 T NT inf_ M (zs basis) (Z.of_nat max_iter) fea tolp tolr =
+    (let '(M', bs', succ, st, ni) :=
+         solve_phase_1 M basis max_iter {| fea_tol := fea; tol_piv := tolp; tol_ratio_diff := tolr |} in
+     (((succ, Z.of_nat st, Z.of_nat ni), M', zs bs'), true)).
+Proof. exact (@gen_solve_phase_1_tie). Qed.
+Print Assumptions C04_tie_solve_phase_1.
+
+(* non-vacuity: Phase 1 of  x0 + x1 >= 2 (as -x0 - x1 <= -2), x0 + 2 x1 = 3: initial tableau of C04_tie_initialize_tableau_example-like shape *)
+Example C04_tie_solve_phase_1_example :
+  let tb := fst (initialize_tableau 2 1 1 [[-1;-1]]%Q [-2]%Q [[1;2]]%Q [3]%Q) in
+  traj_ok (1000000%Q) 0%Q 0%Q 0%Q false 3 7 20 tb /\
+  fst (fst (fst (gen_solve_phase_1 (1000000%Q) tb [3;4]%Z 20 0%Q 0%Q 0%Q))) =
+    (let '(_, _, succ, st, ni) := solve_phase_1 tb [3;4]%nat 20 {| fea_tol := 0%Q; tol_piv := 0%Q; tol_ratio_diff := 0%Q |} in
+     (succ, Z.of_nat st, Z.of_nat ni)) /\
+  fst (fst (fst (fst (fst (gen_solve_phase_1 (1000000%Q) tb [3;4]%Z 20 0%Q 0%Q 0%Q))))) = true.
+Proof. cbv zeta. split; [apply traj_okb_sound; [split; repeat constructor|vm_compute; reflexivity]|]. vm_compute. split; reflexivity. Qed.
